@@ -10,8 +10,8 @@
 using namespace muscle;
 
 // script letters: r/w blocking read/write acquire, R/W try, t/T finite-deadline, '.' release the latest successful acquisition
-static const char * kScripts[] = {"r.", "w.", "R.", "W.", "t.", "T.", "rw..", "rr..", "wr..", "ww..", "rT..", "r.w.", "rW..", "tw..", "rt.."};
-static const int kNumBase = 12;   // the first 12 form the "full script space" of DESIGN 3 C18; the rest are extras used by named configurations
+static const char * kScripts[] = {"r.", "w.", "R.", "W.", "t.", "T.", "rw..", "rr..", "wr..", "ww..", "rT..", "r.w.", "ri.", "wi.", "rW..", "tw..", "rt.."};
+static const int kNumBase = 14;   // the first 12 form the "full script space" of DESIGN 3 C18; the rest are extras used by named configurations
 
 struct Config { bool preferWriters; std::vector<std::string> scripts; };
 static std::string ConfigToString(const Config & c) { std::string s = c.preferWriters ? "pw=1" : "pw=0"; for (size_t i = 0; i < c.scripts.size(); i++) s += (i ? "|" : ";") + c.scripts[i]; return s; }
@@ -51,6 +51,7 @@ static void ThreadBody(const ReaderWriterMutex * m, Monitor * sharedMon, int me,
    for (size_t pc = 0; pc < script.size(); pc++) {
       const char c = script[pc];
       if (c == 'x') continue;   // trailing marker: surplus-release check after the script (below)
+      if (c == 'i') { schedx::Idle("long-critical-section"); continue; }   // stay inside the critical section until every other thread is blocked or done (free of preemption cost)
       if (c == '.') {
          if (held.empty()) continue;   // the acquisition this release pairs with failed (try/timed): nothing to release
          const char k = held.back(); held.pop_back();
@@ -132,8 +133,10 @@ static void AddMultisets(std::vector<Config> & out, int n, int mode)
          if (n == 2 && c != b) continue;
          Config cfg; cfg.preferWriters = pw != 0; cfg.scripts.push_back(kScripts[a]); cfg.scripts.push_back(kScripts[b]); if (n == 3) cfg.scripts.push_back(kScripts[c]);
          if (mode == 1) {
+            // an upgrade script + a competing writer in another thread + a third script from a small set of plain/idle holders
             bool ok = false;
-            for (size_t i = 0; i < cfg.scripts.size(); i++) if (IsUpgradeScript(cfg.scripts[i])) for (size_t j = 0; j < cfg.scripts.size(); j++) if (j != i && IsWriterScript(cfg.scripts[j])) ok = true;
+            for (size_t i = 0; i < cfg.scripts.size(); i++) if (IsUpgradeScript(cfg.scripts[i])) for (size_t j = 0; j < cfg.scripts.size(); j++) if (j != i && IsWriterScript(cfg.scripts[j]))
+               for (size_t k = 0; k < cfg.scripts.size(); k++) if (k != i && k != j) { const std::string & t = cfg.scripts[k]; if (t == "r." || t == "w." || t == "wi." || t == "ri." || t == "T.") ok = true; }
             if (!ok) continue;
          }
          out.push_back(cfg);
@@ -166,7 +169,7 @@ int main(int argc, char ** argv)
    if (args.kv.count("config")) cfgs.push_back(ConfigFromString(args.kv["config"]));
    else {
       // named configurations first (simplest first), then the script space
-      const char * named[] = {"pw=1;r.|w.", "pw=0;r.|w.", "pw=1;rw..|r.|w.", "pw=0;rw..|r.|w.", "pw=1;rW..|r.|w.", "pw=1;rT..|r.|w.", "pw=1;w.|T.|r.", "pw=1;w.|T.|w.", "pw=0;w.|T.|r.", "pw=1;rw..|rw..", "pw=1;rw..|rw..|r.", "pw=1;r.|r.|w.|w.", "pw=1;r.x|w.x", "pw=0;rw..x|w.x", "pw=1;rr..|ww..|t.", "pw=0;rT..|rT..|w."};
+      const char * named[] = {"pw=1;r.|w.", "pw=0;r.|w.", "pw=1;rw..|r.|w.", "pw=0;rw..|r.|w.", "pw=1;rW..|r.|w.", "pw=1;rT..|r.|w.", "pw=1;w.|T.|r.", "pw=1;w.|T.|w.", "pw=0;w.|T.|r.", "pw=1;wi.|T.|w.", "pw=1;wi.|T.|r.", "pw=0;wi.|T.|w.", "pw=1;wi.|t.|w.", "pw=1;ri.|T.|w.", "pw=1;ri.|T.|T.", "pw=1;wi.|rT..|r.", "pw=1;wi.|w.|r.|r.", "pw=0;wi.|r.|w.|r.", "pw=1;ri.|rw..|w.", "pw=1;rw..|rw..", "pw=1;rw..|rw..|r.", "pw=1;r.|r.|w.|w.", "pw=1;r.x|w.x", "pw=0;rw..x|w.x", "pw=1;rr..|ww..|t.", "pw=0;rT..|rT..|w."};
       for (size_t i = 0; i < sizeof(named) / sizeof(named[0]); i++) cfgs.push_back(ConfigFromString(named[i]));
       AddMultisets(cfgs, 2, 0);   // every pair of scripts
       if (args.Thorough()) AddMultisets(cfgs, 3, 0); else AddMultisets(cfgs, 3, 1);
@@ -202,7 +205,7 @@ int main(int argc, char ** argv)
    for (std::map<int, verif::Part>::iterator it = byBound.begin(); it != byBound.end(); ++it) {
       verif::Part & a = it->second; a.name = verif::Fmt("rwmutex-bound%d", it->first); a.bound_completed = a.exhaustive ? it->first : -1;
       if (capped && it->first == byBound.rbegin()->first) { a.exhaustive = false; if (a.cap.empty()) a.cap = "deadline: not every configuration was explored at this bound"; }
-      a.rule = verif::Fmt("every interleaving with <=%d preemptions/fired timeouts (iterative context bounding over hooked Mutex/WaitCondition points + one yield inside each critical section) of %s thread-script configurations over one real ReaderWriterMutex (scripts from {r. w. R. W. t. T. rw.. rr.. wr.. ww.. rT.. r.w.} = blocking/try/timed acquisitions, recursion, upgrade; both writer-preference settings); one execution = one forked process; distinct = distinct (status, per-thread result log)", it->first, a.extra["configurations"].c_str());
+      a.rule = verif::Fmt("every interleaving with <=%d preemptions/fired timeouts (iterative context bounding over hooked Mutex/WaitCondition points + one yield inside each critical section) of %s thread-script configurations over one real ReaderWriterMutex (scripts from {r. w. R. W. t. T. rw.. rr.. wr.. ww.. rT.. r.w. ri. wi.} = blocking/try/timed acquisitions, recursion, upgrade, i = holder stays in its critical section until all others are blocked; both writer-preference settings); one execution = one forked process; distinct = distinct (status, per-thread result log)", it->first, a.extra["configurations"].c_str());
       res.parts.push_back(a);
    }
    fprintf(stderr, "C18: configs=%u executions=%lu capped=%d violations=%u wall=%.1fs\n", (unsigned)done, execs, (int)capped, (unsigned)res.violations.size(), verif::NowS() - args.t0);
